@@ -21,6 +21,14 @@ package ollama
 
 //@ extern func server/internal/cache/blob.DigestFromBytes
 //@   pure
+// slog.AnyValue is used in specifications only, as an uninterpreted function of a value boxed into
+// `any` (the engine boxes a concrete argument passed to an interface parameter of a pure program
+// function): `slog.AnyValue(argN[i]) == slog.AnyValue(x)` holds when the variadic operand i is the
+// boxed x and cannot be proved once the operand is another term.
+//@ extern func server/internal/cache/blob.(Digest).IsValid
+//@   pure reads none
+//@ extern func log/slog.AnyValue
+//@   pure reads none
 
 // ---- helpers of this package that are not verified here (trusted frames) ------------------
 
@@ -38,8 +46,33 @@ package ollama
 
 // Pull$2: the per-layer download function (a closure called synchronously by Pull; it
 // starts the chunk goroutines with g.Go and returns).
-//@ extern func (*Registry).Pull$2
+// Its body is verified (frame `modifies nothing` as before, now checked): the chunked writer is
+// opened for THIS layer's digest and size (a writer opened under another digest would put verified
+// chunks into another blob's file while the byte count still adds up), the chunk plan is requested
+// for the same layer, and the closer goroutine is registered before the first chunk is requested.
+// Trusted frames: c.Chunked (creates/opens the blob file), chunksums (returns a closure), the call of
+// the iterator value (runs chunksums$1, which calls the loop body Pull$2$3: both are under contract),
+// the deferred error reporter Pull$2$1 (`if err != nil { update(0, err) }`: calls the unknown
+// function value update).
+//@ extern func server/internal/cache/blob.(*DiskCache).Chunked
 //@   modifies nothing
+//@   ensures result.1 == nil ==> result.0 != nil
+//@ extern func (*Registry).chunksums
+//@   modifies nothing
+//@ extern func iter.(Seq2)
+//@   modifies nothing
+//@ extern func (*Registry).Pull$2$1
+//@   modifies nothing
+//@ func (*Registry).Pull$2$2
+//@   modifies nothing
+//@ func (*Registry).Pull$2
+//@   modifies nothing
+//@   opt safe index,slice,div,typeassert,makeslice,shift,nilmap     -- (no safe.panic: the `iterator call did not preserve panic` check of go/ssa's range-over-func lowering reads jump$3 after the unknown iterator call)
+//@   assert-at call Chunked #1 : arg0 == c && arg1 == l.Digest && arg2 == l.Size
+//@   assert-at call chunksums #1 : arg0 == r && arg2 == name && arg3 == l
+//@   ghost-at entry : ghost_opened := 0
+//@   ghost-at after call Chunked #1 : ghost_opened := ite(result.1 == nil, 1, 0)
+//@   assert-at call chunksums #1 : ghost_opened == 1        -- the chunk plan is requested only after the writer was opened without error
 
 // ---- Pull ----------------------------------------------------------------------------------
 // Loops: 1 announce layers / sum expected   2 per layer: cached or download
@@ -82,6 +115,28 @@ package ollama
 // file of exactly the manifest's size under the layer's digest (SIZE ONLY - see not_decided)
 //@   assert-at call Get #1 : arg1 == l.Digest
 //@   assert-at call Pull$1 #1 : err == nil && info.Size == l.Size && arg0 == l.Size && arg1 == ErrCached
+// "every layer of the manifest": the slice both loops walk starts with all of m.Layers, in order,
+// followed by the config layer when the manifest names one (a sliced/filtered copy, or a dropped
+// config append, would let Pull succeed without ever looking at the left-out layer)
+//@   assert-at call traceFromContext #1 : len(layers) >= len(m.Layers) && (forall k int :: 0 <= k && k < len(m.Layers) ==> layers[k] == m.Layers[k])
+//@   assert-at call traceFromContext #1 : m.Config != nil && m.Config.Digest.IsValid() ==> len(layers) == len(m.Layers) + 1 && layers[len(m.Layers)] == m.Config
+// loop 2 deals with EVERY element of layers before the wait: each iteration either takes the
+// size-match shortcut (Pull$1) or runs the per-layer download function (Pull$2), for layers[i]
+//@   ghost-at entry : ghost_handled := 0
+//@   ghost-at after call Pull$1 #1 : ghost_handled := ghost_handled + 1
+//@   ghost-at after call Pull$2 #1 : ghost_handled := ghost_handled + 1
+//@   loop 2 invariant ghost_handled == rangeindex + 1
+//@   assert-at call errgroup.(*Group).Wait #1 : ghost_handled == len(layers)
+//@   assert-at call Get #1 : l == layers[rangeindex + 1]      -- (in the body rangeindex still is the previous index)
+// loop 1 sums over the same slice, completely
+//@   assert-at call errgroup.(*Group).SetLimit #1 : rangeindex + 1 == len(layers)
+// "success" (nil) is returned ONLY from the path that passed all of the above: no early `return nil`
+// before the wait / the byte-count comparison / the manifest store / the link
+//@   ghost-at entry : ghost_complete := 0
+//@   ghost-at entry : ghost_linked := 0
+//@   ghost-at call DigestFromBytes #1 : ghost_complete := ite(ghost_waited == 1 && ghost_recv == expected && ghost_handled == len(layers), 1, 0)
+//@   ghost-at after call Link #1 : ghost_linked := ite(result == nil, 1, 0)
+//@   ensures result == nil ==> ghost_complete == 1 && ghost_stored == 1 && ghost_linked == 1
 
 // Pull$1: the `update` closure of a layer. Every report except the "nothing happened"
 // one (n == 0 && err == nil) adds exactly n to the shared byte counter `completed`.
@@ -150,6 +205,14 @@ package ollama
 //@   ghost-at after call PutBytes #1 : ghost_marked := ite(result == nil, 1, 0)
 //@   ensures result == nil ==> ghost_put == 1 && ghost_marked == 1
 
+// Pull$2$3$1$3: the progress callback of the chunk's trackingReader. It forwards the byte count of
+// every Read unchanged to the layer's update closure (Pull$1), so the shared counter that Pull
+// compares with `expected` grows by exactly the bytes read - the count is Pull's only protection
+// against a chunk list that ends early without an error.
+// (`call #3` = update(n, err) at registry.go:615; #1 readTimeout, #2 timer.Reset)
+//@ func (*Registry).Pull$2$3$1$3
+//@   assert-at call #3 : arg0 == n && arg1 == err
+
 // ---- chunk list parsing (input from the registry: arbitrary bytes) --------------------------
 //@ func parseChunk
 //@   modifies nothing
@@ -201,6 +264,17 @@ package ollama
 // (`call #6` = update(cs.Chunk.Size(), ErrCached) at registry.go:571; `call #1` = update(0, err))
 //@   assert-at call #6 : arg0 == cs.Chunk.End - cs.Chunk.Start + 1 && arg1 == ErrCached
 //@   assert-at call #1 : arg0 == 0 && arg1 != nil
+// the marker key names the layer, the chunk digest and the chunk range: a marker written for
+// another layer, another digest or another range (e.g. an identical chunk at a different
+// offset) must not let this chunk be skipped
+//@   ghost-at entry : ghost_marker := 0
+//@   ghost-at after call Get #1 : ghost_marker := ite(result.1 == nil, 1, 0)
+//@   assert-at call #6 : ghost_marker == 1        -- a chunk is counted without a download only if its marker blob was found
+//@   assert-at call fmt.Sprintf #1 : arg0 == "v1 pull chunksum %s %s %d-%d" && len(arg1) == 4
+// (the operands are boxed into `any`; slog.AnyValue stands for an uninterpreted function of the boxed value: equal
+// on the unchanged code because both sides box the same term, not provable once an operand changes)
+//@   assert-at call fmt.Sprintf #1 : slog.AnyValue(arg1[0]) == slog.AnyValue(l.Digest) && slog.AnyValue(arg1[1]) == slog.AnyValue(cs.Digest)
+//@   assert-at call fmt.Sprintf #1 : slog.AnyValue(arg1[2]) == slog.AnyValue(cs.Chunk.Start) && slog.AnyValue(arg1[3]) == slog.AnyValue(cs.Chunk.End)
 
 // ---- Pull$2$2$1: the closer goroutine of a layer: the file is closed only after every chunk
 // ---- goroutine of the layer called wg.Done
@@ -241,6 +315,23 @@ package ollama
 //@   ghost-at after call errgroup.(*Group).Wait #1 : ghost_waited := ite(result == nil, 1, 0)
 //@   assert-at call (*Registry).send #1 : ghost_waited == 1 && arg2 == "PUT" && arg3 == path
 //@   assert-at call bytes.NewReader #1 : arg0 == m.Data && ghost_waited == 1
+// every layer of the manifest gets an upload goroutine before the wait (loop 2 walks all of
+// m.Layers; the goroutine started in iteration i uploads m.Layers[i]); the pre-flight loop saw the
+// cache file of every layer with the manifest's size
+//@   ghost-at entry : ghost_go := 0
+//@   ghost-at after call errgroup.(*Group).Go #1 : ghost_go := ghost_go + 1
+//@   loop 2 invariant ghost_go == rangeindex + 1
+//@   assert-at call errgroup.(*Group).Wait #1 : ghost_go == len(m.Layers)
+//@   assert-at call errgroup.(*Group).Go #1 : l == m.Layers[rangeindex + 1]      -- (in the body rangeindex still is the previous index)
+//@   assert-at call Get #1 : l == m.Layers[rangeindex + 1]
+//@   assert-at call errgroup.(*Group).SetLimit #1 : rangeindex + 1 == len(m.Layers)
+//@   ghost-at entry : ghost_sized := 0
+//@   ghost-at after call Get #1 : ghost_sized := ite(result.1 == nil && result.0.Size == l.Size, 1, 0)
+//@   loop 1 invariant rangeindex >= 0 ==> ghost_sized == 1
+// Push reports success only after the wait returned nil and the manifest PUT was accepted
+//@   ghost-at entry : ghost_sent := 0
+//@   ghost-at after call (*Registry).send #1 : ghost_sent := ite(result.1 == nil, 1, 0)
+//@   ensures result == nil ==> ghost_waited == 1 && ghost_sent == 1
 
 // ---- Push$1: upload goroutine of one layer. It returns nil only if the registry answered
 // ---- the POST without an upload location (blob already there) or the PUT of the blob file
@@ -262,6 +353,12 @@ package ollama
 //@   ghost-at after call update #2 : ghost_ok := 2
 //@   assert-at call update #2 : uploadURL == "" && arg2 == l.Size && arg3 == ErrCached
 //@   ensures result == nil ==> ghost_ok == 1 || ghost_ok == 2
+// the upload session is opened for THIS layer's digest (last operand of the start URL), the PUT
+// body is the file that was opened under that digest, and the location is read from the answer
+// to the POST
+//@   assert-at call fmt.Sprintf #1 : len(arg1) == 5 && slog.AnyValue(arg1[4]) == slog.AnyValue(l.Digest)
+//@   assert-at call newRequest #1 : f != nil ==> slog.AnyValue(arg4) == slog.AnyValue(f)
+//@   assert-at call (Header).Get #1 : arg0 == res.Header && arg1 == "Location"
 
 // ---- trackingReader.Read: every Read reports exactly the number of bytes it returned
 //@ func (*trackingReader).Read
